@@ -22,7 +22,7 @@ MANIFEST = {
             "step/advance_timestep/apply_agent_actions/update_agents/reset, the truncation comparator (translated from source), the literal "
             "terminated=False and the single history append are regenerated from source (Gen/Episode.lean, obligation C01_gen_pipeline).",
     "note": "C01-specific: Python exceptions inside handlers/observations/rewards and float overflow are outside the model; totality is "
-            "validated by execution only. Scenario families: shipped scenarios x generated action maps (no generated topologies yet).",
+            "validated by execution only. Scenario families: shipped scenarios x generated action maps and members of the generated topology families (switched LAN, routed, firewall+DMZ) from harness/gen/scenario.py.",
     "technique": "Lean 4 induction over action sequences on a parametric episode model; regenerated pipeline table; differential env rig",
     "design_ref": "5/C01",
 }
@@ -54,6 +54,28 @@ def _cases(ctx: Ctx):
                 aug = None
             if aug is not None:
                 yield name, f"generated-map-{v}", aug
+
+
+def _generated(ctx: Ctx):
+    """Members of the generated scenario families (harness/gen/scenario.py: switched LAN, routed, firewall+DMZ)."""
+    from harness.gen import scenario as gscen
+    rng = ctx.rng.fork("gen-scenarios")
+    for k in range(ctx.scale(4, 30)):
+        fam = gscen.FAMILIES[k % len(gscen.FAMILIES)]
+        try:
+            cfg = gscen.gen_scenario(rng.fork(f"g{k}"), size=1 + k % 3, family=fam, shadowing=(k % 2 == 0))
+        except Exception as e:
+            ctx.notes.append(f"generator failed for {fam}#{k}: {type(e).__name__}: {str(e)[:100]}")
+            continue
+        cfg = envrig.with_proxy(cfg)
+        yield f"generated-{fam}-{k}", "own-map", cfg
+        try:
+            aug = envrig.augmented(cfg, rng.fork(f"aug{k}"), ctx.scale(50, 120))
+        except Exception as e:
+            ctx.notes.append(f"generated-{fam}-{k}: augmented map not built: {type(e).__name__}: {str(e)[:100]}")
+            aug = None
+        if aug is not None:
+            yield f"generated-{fam}-{k}", "generated-map-0", aug
 
 
 def _sig(f: dict) -> dict:
@@ -92,7 +114,8 @@ def run(ctx: Ctx):
     all_lines: List[str] = []
     all_impl: List[str] = []
     rng = ctx.rng.fork("run")
-    for name, variant, cfg in _cases(ctx):
+    import itertools
+    for name, variant, cfg in itertools.chain(_cases(ctx), _generated(ctx)):
         max_len = rng.choice([7, 19, 33])
         lines, impl, fails, log = envrig.run_case(cfg, rng.fork(name + variant), episodes=ctx.scale(3, 5),
                                                   steps_per_episode=max_len + 3, max_len=max_len)
